@@ -201,3 +201,13 @@ UNIT = Unit(
 )
 UNIT.allowed_calls = {'get', 'iter', 'is_empty', 'len', 'as_str'}
 UNIT.forbid = ['.type_name ==', '.type_name !=', '== &referenced_import.type_name', '!= &referenced_import.type_name', 'format!', '.to_string()', '.into()']
+
+
+def native(workdir):
+    import cli_multifile
+    return cli_multifile.native(workdir)
+
+
+def replay_args(inp):
+    import cli_multifile
+    return cli_multifile.replay_args(inp)
